@@ -188,10 +188,19 @@ func memAnyOp(o *h.Out, rc *h.Rng, ans func(string)) {
 		if name == "CALLCODE" {
 			oc = vm.CALLCODE
 		}
+		// with and without value: a value-carrying CALL to an account that does not exist yet also pays for the new
+		// account, on top of the memory its in / out regions need (sizes capped: were the memory fee missing the
+		// region would really be allocated)
+		val := uint64(rc.Intn(2))
+		if val != 0 {
+			capm := big.NewInt(1 << 24)
+			size, off = new(big.Int).Mod(size, capm), new(big.Int).Mod(off, capm)
+			name += "+value"
+		}
 		if rc.Bool() {
-			a.pushN(0).pushN(0).push(size).push(off).pushN(0).pushB(to).pushN(1000).op(oc)
+			a.pushN(0).pushN(0).push(size).push(off).pushN(val).pushB(to).pushN(1000).op(oc)
 		} else {
-			a.push(size).push(off).pushN(0).pushN(0).pushN(0).pushB(to).pushN(1000).op(oc)
+			a.push(size).push(off).pushN(0).pushN(0).pushN(val).pushB(to).pushN(1000).op(oc)
 		}
 	case "DELEGATECALL", "STATICCALL":
 		oc := vm.DELEGATECALL
